@@ -2,8 +2,7 @@
 from harness import common as C
 from harness import l2
 
-FILES = ["Engine/Toposort.v", "Engine/ToposortProof.v", "Engine/Tagged.v", "Engine/Tower.v", "Engine/Run08.v",
-         "Engine/TaggedProof.v", "Props/C06.v"]
+FILES = ["Engine/Toposort.v", "Engine/ToposortProof.v", "Engine/Tagged.v", "Engine/Tower.v", "Engine/Run08.v", "Engine/TaggedProof.v", "Engine/TowerAlg.v", "Engine/FwdCorrect.v", "Engine/FwdStep.v", "Engine/FwdEval.v", "Engine/TowerRing.v", "Engine/MixInterp.v", "Engine/MixStep.v", "Engine/MixBackward.v", "Engine/MixEval.v", "Props/C06.v"]
 RULE = ("random bodies (with and without nested operators) evaluated plainly, under make_vjp, under make_jvp and "
         "under two nested value_and_grad levels: the four primal values are compared with the spec and with the "
         "model on correspondingly boxed inputs; plus implementation-only comparison of the autograd.numpy wrappers "
